@@ -66,12 +66,21 @@ static WorkerViolation process_violation(const Plan& plan, const Verdict& v0) {
     // gate 1: same process, same plan -> same class and same event hash
     Stats tmp;
     Verdict v1 = check_plan(v0.concrete, tmp);
-    if (!v1.violated || v1.klass(prop) != w.klass) { w.gate_ok = false; w.gate_note = "re-execution of the concrete plan did not reproduce the violation class (got " + (v1.violated ? v1.klass(prop) : std::string("none")) + ")"; }
+    bool whole_plan = false;
+    if (!v1.violated || v1.klass(prop) != w.klass) {
+        // The concrete plan is the generated one narrowed to the failing trial (one capacity, one k, one loss position). If the library
+        // keeps hidden state between calls, the trials that were cut away matter: fall back to the generated plan as a whole, which
+        // is just as deterministic, and do not shrink it.
+        Stats tg; Verdict vg = check_plan(plan, tg);
+        if (vg.violated && vg.klass(prop) == w.klass) { v1 = vg; v1.concrete = plan; whole_plan = true; }
+        else { w.gate_ok = false; w.gate_note = "re-execution of the concrete plan did not reproduce the violation class (got " + (v1.violated ? v1.klass(prop) : std::string("none")) + ")"; }
+    }
     Stats tmp2;
-    Verdict v2 = check_plan(v0.concrete, tmp2);
+    Verdict v2 = check_plan(whole_plan ? plan : v0.concrete, tmp2);
     if (w.gate_ok && (v2.ev_hash != v1.ev_hash || !v2.violated)) { w.gate_ok = false; w.gate_note = "event hash differs between two executions of the same plan"; }
-    Plan minimal = v0.concrete;
-    if (w.gate_ok) {
+    Plan minimal = whole_plan ? plan : v0.concrete;
+    if (w.gate_ok && whole_plan) { w.detail = v1.detail + "  (not minimised: the violation depends on the calls of the other trials of this run - hidden state between calls)"; }
+    if (w.gate_ok && !whole_plan) {
         minimal = shrink_plan(plan, v1, &w.reruns);
         Stats t3; Verdict v3 = check_plan(minimal, t3);
         if (!v3.violated || v3.klass(prop) != w.klass) { minimal = v1.concrete; }
